@@ -225,10 +225,12 @@ class Check:
             lo, hi = b
             restarts = 0
             res = []
+            wdir = os.path.join(self.scratch, 'w%d' % lo)   # own cwd: fix8's global logger rotates files there
+            os.makedirs(wdir, exist_ok=True)
             while lo < hi:
                 n = hi - lo
                 cmd = [exe] + base_args + ['--seed', str(self.seed), '--start', str(lo), '--cases', str(n)]
-                rc, so, se, to, dt = self.run_proc(cmd, timeout=max(60.0, per_case_timeout * n), env=env)
+                rc, so, se, to, dt = self.run_proc(cmd, timeout=max(60.0, per_case_timeout * n), env=env, cwd=wdir)
                 w = WorkerOut()
                 parse_stdout(so, w)
                 w.rc, w.stderr, w.timeout, w.cmd = rc, se, to, cmd
